@@ -36,8 +36,17 @@ def stages(tier, seed, bins):
         perp = min(perp, maxp)
         if perp <= 1.0:
             perp = 1.5
-        add(mode="perp", data=rnd.choice(["gauss", "clusters", "swiss", "mix"]), N=N, D=rnd.choice([2, 3, 5, 10, 20]),
-            dseed=rnd.randrange(1 << 30), perp="%.6g" % perp, srand=rnd.randrange(1 << 30), nc=3, gap=6)
+        kind = rnd.choice(["gauss", "clusters", "swiss", "mix", "lattice", "dup"])
+        extra = {}
+        if kind == "lattice":
+            extra = dict(ldims=rnd.choice([1, 2]), perm=rnd.randrange(1, 1 << 30))
+            perp = min(perp, rnd.choice([1.5, 2.0, 3.0, 5.0]))
+        if kind == "dup":
+            # repeated samples: rows whose closest candidates tie at distance zero cannot reach a small perplexity
+            extra = dict(copies=rnd.choice([2, 3, 4, 6]), perm=rnd.randrange(1, 1 << 30))
+            perp = min(perp, rnd.choice([1.5, 2.0, 3.0, 5.0]))
+        add(mode="perp", data=kind, N=N, D=rnd.choice([2, 3, 5, 10, 20]),
+            dseed=rnd.randrange(1 << 30), perp="%.6g" % perp, srand=rnd.randrange(1 << 30), nc=3, gap=6, **extra)
     ngrad = 1000 if thorough else 60
     for i in range(ngrad):
         N = rnd.choice([12, 20, 33, 50, 80])
